@@ -493,11 +493,13 @@ class DictList(list):
             return
         if i < 0 and i + len(self) >= 0:
             i += len(self)
+        the_id = y.id
+        # replacing an element by one with the same id is fine
+        if self._dict.get(the_id, i) != i:
+            self._check(the_id)
         # in case a rename has occurred
         if self._dict.get(self[i].id) == i:
             self._dict.pop(self[i].id)
-        the_id = y.id
-        self._check(the_id)
         list.__setitem__(self, i, y)
         self._dict[the_id] = i
 
